@@ -1,6 +1,7 @@
 (* Props/C16.v — a replica refuses client writes but keeps applying replicated ones.
    Property theorems only; each closed by `exact` of a lemma of ReadOnlyProofs.v. *)
 From Coq Require Import List NArith Bool String.
+From KV.gen Require ApplierFacts.
 From KV Require Import Bytes Engine ReadOnly ReadOnlyProofs.
 From KV.gen Require Import Api.
 Import ListNotations.
@@ -30,6 +31,13 @@ Print Assumptions C16_reflective_safe.
 Theorem C16_internal_only_replication : forall p, In p internal_callers -> fst p = "pkg/replication"%string.
 Proof. exact internal_only_replication. Qed.
 Print Assumptions C16_internal_only_replication.
+
+Theorem C16_applier_paths : 
+  forallb assertion_ok ApplierFacts.applier_assertions = true /\
+  In ("applyInReadOnlyMode"%string, "PutInternal"%string, true) ApplierFacts.applier_assertions /\
+  In ("applyInReadOnlyMode"%string, "DeleteInternal"%string, true) ApplierFacts.applier_assertions.
+Proof. exact applier_paths_satisfied. Qed.
+Print Assumptions C16_applier_paths.
 
 Theorem C16_leaks_known : incl leak_names ["GetWAL"%string].
 Proof. exact leaks_known. Qed.
